@@ -103,6 +103,17 @@ m("c07-fill-from-id", SS, "            fill_bit_count,\n            message_type
 m("c07-channel-from-payload", SS, "let (_, channel) = opt(anychar)(channel_bytes)?;\n    let (data, _) = tag(\",\")(data)?;\n    let (data, ais_data) = take_until(\",\")(data)?;", "let (data, _) = tag(\",\")(data)?;\n    let (data, ais_data) = take_until(\",\")(data)?;\n    let (_, channel) = opt(anychar)(if channel_bytes.is_empty() { channel_bytes } else { ais_data })?;", ["C07"])
 m("c07-decode-guards-swap", SS, "            if ais_sentence.is_fragment() {\n                self.verify_and_extend_data(&ais_sentence)?;", "            if ais_sentence.is_fragment() && decode {\n                self.verify_and_extend_data(&ais_sentence)?;", ["C07", "C05"])
 m("c19-5-bits", S + "parsers.rs", "pub fn message_type_bits(data: (&[u8], usize)) -> IResult<(&[u8], usize), u8> {\n    take_bits(6u8)(data)", "pub fn message_type_bits(data: (&[u8], usize)) -> IResult<(&[u8], usize), u8> {\n    take_bits(5u8)(data)", ["C19", "C09"])
+# ---- C03
+MM = S + "mod.rs"
+m("c03-alphabet-120", MM, "96..=119 => byte - 56,", "96..=120 => byte - 56,", ["C03"])
+m("c03-minus-55", MM, "96..=119 => byte - 56,", "96..=119 => byte - 55,", ["C03"])
+m("c03-min-dropped", MM, "(8 - bits_in_final_byte) + lib::std::cmp::min(fill_bits, bits_in_final_byte);", "(8 - bits_in_final_byte) + fill_bits;", ["C03"])
+m("c03-shl-1", MM, "        } << 2;", "        } << 1;", ["C03"])
+m("c03-next-byte-shift", MM, "output[offset_byte + 1] |= unarmored << (8 - offset_bit);", "output[offset_byte + 1] |= unarmored << (7 - offset_bit);", ["C03"])
+m("c03-revert-F3", None, "selftest/reverts/F3.patch", None, ["C03"])
+m("c03-len-floor", MM, "let byte_count = (bit_count / 8) + ((bit_count % 8 != 0) as usize);", "let byte_count = (bit_count / 8) + 1;", ["C03"])
+m("c03-second-mask-off-by-one", MM, "*byte &= 0xffu8 << (fill_bits - bits_in_final_byte);", "*byte &= 0xffu8 << (fill_bits - bits_in_final_byte + 1);", ["C03"])
+n("n-c03-fill-ge", MM, "if fill_bits > bits_in_final_byte {", "if fill_bits >= bits_in_final_byte {", ["C03"])
 # ---- neutral edits
 n("n-t16-gt-51", S + "assignment_mode_command.rs", "if remaining_bits >= 52 {", "if remaining_bits > 51 {", ["C04", "C14"])
 n("n-t12-error-kind", S + "addressed_safety_related.rs", "nom::error::ErrorKind::Eof,", "nom::error::ErrorKind::Digit,", ["C04", "C14", "C09"])
